@@ -227,6 +227,11 @@ def run_cfg(ctx, fx):
             ok = ok and okw and arg_from_ws
             det["subscribes"] = "weak sender of its own context"
         n_ok += 1
+        if ok:
+            # ... on every path: an entry point that answers without reaching the broker (a cached "already subscribed",
+            # a skipped publication) loses the subscription / the publication
+            from props.c04 import check_forward_always
+            check_forward_always(ctx, fx, "R09.4", "entry-always-forwards:" + e, fam[0], lambda x, _c=callee: x.get("callee") == _c)
         ctx.require(ok, "R09.4", "entry:" + e, "%s does not forward to the one broker actor's mailbox as expected" % e, fn=fam[0]["def"], site=t["l"], detail=det)
     ctx.floor("R09.4", "broker entry points", n_ok, 6)
     return None
